@@ -28,7 +28,7 @@ extra = json.load(open("/var/tmp/seed_extra.json")) if os.path.exists("/var/tmp/
 n = 0
 for d in sorted(glob.glob(f"{SEEDS}/C*")):
     prop = os.path.basename(d)
-    for i in (1, 2, 3):
+    for i in (1, 2, 3, 4, 5, 6):
         key = f"{prop}-m{i}"
         diff, demo, md = f"{d}/m{i}.diff", f"{d}/m{i}_demo.rs", f"{d}/m{i}.md"
         if not (os.path.exists(diff) and key in trial and (key in confirm or key in extra)):
